@@ -208,6 +208,25 @@ def build_special(g, kind, flag, special):
                   same shape and Frobenius norm, the left inverses differ."""
     c = qobj.csys("qubit")
     what, k = special.split(":"); k = int(k)
+    if what == "det2":
+        # TWO schedules with a zero-probability outcome (the true object is an eigenstate of two sharp testers), others unsharp
+        ax = g.standard_normal(3)
+        if kind == "qst":
+            axes = [ax, g.standard_normal(3), -ax, g.standard_normal(3)]
+            vis = [1.0, 0.6, 1.0, 0.8]
+            order = [[0, 1, 2, 3], [1, 0, 3, 2], [1, 2, 3, 0]][k % 3]
+            povms = [unsharp_povm(c, axes[i], vis[i]) for i in order]
+            qt = StandardQst(povms, on_para_eq_constraint=flag)
+            true = qobj.State(c, qobj.vec_of(c, (np.eye(2) + _axis_mat(ax)) / 2), on_para_eq_constraint=flag)
+            return qt, true, {"povms": povms}
+        states = _tester_states(g, c, 4, pure_first=False)
+        i1, i2 = [(0, 2), (1, 3), (0, 1)][k % 3]
+        states[i1] = qobj.State(c, qobj.vec_of(c, (np.eye(2) + _axis_mat(ax)) / 2))
+        states[i2] = qobj.State(c, qobj.vec_of(c, (np.eye(2) - _axis_mat(ax)) / 2))
+        qt = StandardPovmt(states, 2, on_para_eq_constraint=flag)
+        pm = unsharp_povm(c, ax, 1.0)
+        true = qobj.Povm(c, [np.array(v) for v in pm.vecs], on_para_eq_constraint=flag)
+        return qt, true, {"states": states}
     if what == "nearpure":
         povms = [unsharp_povm(c, ax, 1.0) for ax in AXES_SETS[2]]          # first tester: Z
         qt = StandardQst(povms, on_para_eq_constraint=flag)
@@ -1098,6 +1117,12 @@ def oracle(ctx, volume=1):
                 salt += 1
                 ctx.count(f"oracle deterministic schedule {kind} k={k}")
                 guarded(ctx, check_qt, ctx, kind, flag, 2, 2, True, salt, nmax, special=f"det:{k}")
+    # boundary objects with TWO schedules that contain a zero-probability outcome (each distribution is normalised on its own)
+    for kind in ("qst", "povmt"):
+        for k, flag in ((0, True), (1, False), (2, True)) if not quick else ((0, True), (1, False)):
+            salt += 1
+            ctx.count(f"oracle two deterministic schedules {kind}")
+            guarded(ctx, check_qt, ctx, kind, flag, 2, 2, True, salt, nmax, special=f"det2:{k}")
     # nearly pure true state (Bloch vector (0,0,1-delta)): the covariance of the Z schedule is small, not zero
     for k, flag in ((0, True), (1, False)):
         salt += 1
